@@ -135,7 +135,7 @@ Qed.
 
 Lemma realloc_grow_safe_state stk p n g itp a it :
   Inv g -> wl_ok (items g) -> err g = None ->
-  lookup p (items g) = Some itp -> p <> 0 -> 0 < n -> isize itp < n < two64 ->
+  lookup p (items g) = Some itp -> 0 < p -> 0 < n -> isize itp < n < two64 ->
   reach (items g) (mark_seeds stk g) a -> lookup a (items g) = Some it -> a <> p ->
   let g' := apply_op (ORealloc p p n stk) g in
   lookup a (items g') = Some it /\
@@ -143,8 +143,8 @@ Lemma realloc_grow_safe_state stk p n g itp a it :
   lookup p (items g') = Some (resize_item n itp).
 Proof.
   intros I WLK EG Lp P0 N0 Hn R La Nap. cbn zeta. unfold apply_op. rewrite EG, Lp.
-  assert (PRE : ((0 <? n) && (n <? two64) && negb (n =? isize itp) && ((p =? p) || (p =? 0) || fresh p g)) = true).
-  { rewrite Z.eqb_refl. cbn [orb]. rewrite andb_true_r. apply andb_true_intro. split; [apply andb_true_intro; split; lia|].
+  assert (PRE : ((0 <? p) && (0 <? n) && (n <? two64) && negb (n =? isize itp) && ((p =? p) || (p =? 0) || fresh p g)) = true).
+  { rewrite Z.eqb_refl. cbn [orb]. rewrite andb_true_r. apply andb_true_intro. split; [repeat (apply andb_true_intro; split); lia|].
     apply negb_true_iff. lia. }
   rewrite PRE. unfold gc_realloc.
   assert (P0' : (p =? 0) = false) by lia. rewrite P0'. unfold reregister. rewrite P0'.
@@ -177,7 +177,7 @@ Qed.
 
 Lemma realloc_grow_safe h stk p n itp a it :
   err (run h gc_init) = None ->
-  lookup p (items (run h gc_init)) = Some itp -> p <> 0 -> 0 < n -> isize itp < n < two64 ->
+  lookup p (items (run h gc_init)) = Some itp -> 0 < p -> 0 < n -> isize itp < n < two64 ->
   reach (items (run h gc_init)) (mark_seeds stk (run h gc_init)) a ->
   lookup a (items (run h gc_init)) = Some it -> a <> p ->
   lookup a (items (apply_op (ORealloc p p n stk) (run h gc_init))) = Some it /\
